@@ -224,7 +224,7 @@ def check(rep, ctx):
             continue
         seen.add(key)
         q, issues = timeflow.write_side(c2, 64, "timestamp")
-        issues = [i for i in issues if i[0] in ("T-trunc", "T-unit", "T-int")]
+        issues = [i for i in issues if i[0] in ("T-trunc", "T-unit", "T-int", "T-epoch")]
         rep.check(R_T, q is not None and not issues, construct=f.ref, stmt=timeflow.show(c2),
                   message="; ".join(f"{r}: {m}" for r, m, _ in issues) or "conversion not understood", file=file, line=f.node.lineno)
     from .. import scan
